@@ -195,6 +195,80 @@ def check_module(run, rng, tier, variants, mname, values, classify, layer, model
             run.count("%s_roundtrip_open_in_every_build(%s:%s)" % (layer, s, o.split()[0]))
 
 
+def leaf_contents(rng, tier):
+    """contents octets aimed at the case splits of the proofs: leading 00/ff runs of length 0..3 (the strip
+    loops), first significant octet around the sign bit, total lengths across 8/9 (long range), random tails"""
+    out = set()
+    for pre in range(0, 4):
+        for lead in (0x00, 0xff):
+            for n in range(1, 10):
+                for first in (0x00, 0x01, 0x7f, 0x80, 0xfe, 0xff):
+                    for tail in ("zero", "ones", "rnd"):
+                        t = [0] * (n - 1) if tail == "zero" else [0xff] * (n - 1) if tail == "ones" else [rng.below(256) for _ in range(n - 1)]
+                        b = bytes([lead] * pre + [first] + t)
+                        if len(b) <= 11:
+                            out.add(b)
+    for _ in range(300 if tier == "quick" else 3000):
+        out.add(rng.bytes(rng.range(1, 10)))
+    return sorted(out)
+
+
+def twos(b):
+    return int.from_bytes(b, "big", signed=True)
+
+
+def leaf_tie(run, rng, tier, wvariants, model):
+    """coq/Leaf/NativeWide.v against the real code: BER INTEGER TLVs with arbitrary (non-minimal, out-of-range)
+    contents are decoded and re-encoded as DER by a signed native field (WIT.I), an unsigned native field
+    (WIT.U) and their -fwide-types counterparts.  (i) every build vs the model's path for its representation;
+    (ii) oracle: native and wide builds give the same answer, except inside the refuted regions."""
+    cs = leaf_contents(rng, tier)
+    res = {}
+    for vi, var in enumerate(wvariants):
+        m = var.mods["WIT"]
+        if not m.get("exe"):
+            continue
+        wide = "-fwide-types" in var.opts
+        lines = ["xcode %s ber 02%02x%s der" % (tn, len(b), b.hex()) for tn in ("I", "U") for b in cs]
+        mlines = ["nw_xcode %s %s" % ("W" if wide else ("N0" if tn == "I" else "N1"), b.hex()) for tn in ("I", "U") for b in cs]
+        out = run_mod_resume(run, m, lines, "C13-leaf-" + var.label())
+        rcm, mo, me = run_lines(model, mlines, timeout=600)
+        if rcm != 0 or len(mo) != len(mlines):
+            raise RuntimeError("model driver failed: %s %s" % (rcm, me))
+        for l, o, ml, mout in zip(lines, out, mlines, mo):
+            run.case(l + " @" + ("wide" if wide else "native"))
+            run.count("leaf_%s_%s" % ("wide" if wide else "native", l.split()[1]))
+            if mout.startswith("OK "):
+                c = mout.split()[1]
+                exp = "OK 02%02x%s" % (len(c) // 2, c)
+            else:
+                exp = "DECFAIL FAIL 0"
+            if o != exp:
+                run.violation("correspondence:NativeWide(%s)" % ml.split()[1],
+                              {"what": "the build does not do what the model of its representation does", "build": var.label(), "module": m["text"],
+                               "command_line": l, "c": o, "model_command": ml, "model": mout, "expected": exp}, no_input=True)
+            res.setdefault(l, {})[vi] = o
+    for l, outs in res.items():
+        tn = l.split()[1]
+        b = bytes.fromhex(l.split()[3][4:])
+        v = twos(b)
+        groups = {}
+        for vi, o in outs.items():
+            groups.setdefault(o, []).append(vi)
+        if len(groups) <= 1:
+            continue
+        if tn == "U" and v < 0:
+            run.count("leaf_negative_in_unsigned_type(not a value of the type)")
+            continue
+        if tn == "U" and 2**63 <= v < 2**64:
+            run.known_finding("C13-unsigned-native-ge-2^63", l)
+        elif (tn == "I" and not (-2**63 <= v < 2**63)) or (tn == "U" and v >= 2**64):
+            run.known_finding("C13-native-capacity", l)
+        else:
+            run.violation("oracle:native-vs-wide", {"what": "native and wide builds answer differently for a value both can hold", "module": wvariants[0].mods["WIT"]["text"],
+                                                    "command_line": l, "value": str(v), "outputs": {wvariants[vi].label(): o for vi, o in outs.items()}})
+
+
 def main(tier):
     run = Run("C13", tier)
     rng = Rng(run.seed)
@@ -298,6 +372,7 @@ def main(tier):
                 return "C13-native-capacity"
             return None
         check_module(run, rng, tier, wvariants, "WIT", [(t, d) for (t, d, c) in wvals], xclassify, "witness")
+        leaf_tie(run, rng, tier, wvariants, model_build())
     tb = ["Coq 8.16.1 kernel; vm_compute for refuted witnesses and Examples", "axioms under Print Assumptions: " + (", ".join(sorted(axioms)) or "none (Closed under the global context)"),
           "extraction: ExtrOcamlBasic only; OCaml 4.13.1", "lib/modgen.py (generator, independent X.680 tagging), lib/widegen.py, lib/modbuild.py, lib/c13_util.py, harness/moddrv.c; gcc + ASan/UBSan",
           "values reach every build as DER through ber_decode; wide-layer values are those the baseline build's asn_random_fill produces",
